@@ -27,15 +27,21 @@ Definition matches (s : state) (o : obs) : bool :=
   else negb (existsb crashed (rs s)) && stuck s && logs_match (rs s) (o_fin o) (o_logs o)
        && list_eqb Z.eqb (mem s) (o_mem o) && list_eqb Nat.eqb (map buffered (chs s)) (o_lens o).
 
-Definition case := (prog * obs * list (nat * nat))%type.
+(* the schedule: Some sch = the search found one (to be replayed); Some [] with a non-matching replay =
+   the search proved there is none; None = the search gave up (budget): only the conditions are judged *)
+Definition case := (prog * obs * option (list (nat * nat)))%type.
 
 (* 0 ok: the schedule replays to the observation.  1: no schedule, the necessary conditions hold.
-   2: no schedule and the observation breaks a condition proved for every schedule.  3: self-check. *)
+   2: the observation breaks a condition proved for every schedule.  3: self-check. *)
 Definition check_case (c : case) : N :=
-  let '(p, o, sch) := c in
-  let replay := match run_sched (init p) sch with Some s => matches s o | None => false end in
-  if replay then (if obs_ok p o then 0%N else 3%N)
-  else (if obs_ok p o then 1%N else 2%N).
+  let '(p, o, osch) := c in
+  match osch with
+  | None => if obs_ok p o then 0%N else 2%N
+  | Some sch =>
+      let replay := match run_sched (init p) sch with Some s => matches s o | None => false end in
+      if replay then (if obs_ok p o then 0%N else 3%N)
+      else (if obs_ok p o then 1%N else 2%N)
+  end.
 
 Fixpoint check_all_from (i : N) (cs : list case) : list (N * N) :=
   match cs with
@@ -43,4 +49,7 @@ Fixpoint check_all_from (i : N) (cs : list case) : list (N * N) :=
   | c :: cs' => let r := check_case c in (if N.eqb r 0 then [] else [(i, r)]) ++ check_all_from (N.succ i) cs'
   end.
 Definition check_all := check_all_from 0%N.
-Definition sched_steps (cs : list case) : N := N.of_nat (fold_left (fun a c => a + length (snd c)) cs 0).
+Definition sched_steps (cs : list case) : N :=
+  N.of_nat (fold_left (fun a c => a + match snd c with Some sch => length sch | None => 0 end) cs 0).
+Definition undecided (cs : list case) : N :=
+  N.of_nat (fold_left (fun a c => a + match snd c with Some _ => 0 | None => 1 end) cs 0).
